@@ -21,6 +21,12 @@ ASSUMPTIONS = ["the driver parses the literal token back with Rust's str::parse 
 def cases(rng, tier):
     n = {"quick": 400, "search": 800, "thorough": 3000}[tier]
     out = []
+    # one include path regenerated after edits that keep the file's length (the typical edit of a constant's value):
+    # the exported values are those of the source given with THIS call
+    for a_, b_ in ((12, 0.25), (34, 1.75), (56, 0.50), (12, 0.25), (78, 9.00)):
+        w = "const LIMIT: u32 = %du;\nconst GAIN: f32 = %.2f;\n@fragment fn fs_main() {}\n" % (a_, b_)
+        out.append({"wgsl": w, "family": "same_path_same_length", "opts": {}, "include": "shaders/consts.wgsl",
+                    "truth": [("LIMIT", "PU32", "(LU32 %d%%N)" % a_), ("GAIN", "PF32", "(LF32 %d%%N)" % sink.f32_bits(b_))]})
     for i in range(n):
         s = sink.sink(rng, n_consts=rng.randint(1, 10), n_overrides=0)
         out.append({"wgsl": s["wgsl"], "family": "consts", "opts": {"rustfmt": i % 10 == 0}, "truth": s["consts"]})
